@@ -331,7 +331,9 @@ impl FillIter {
                 bounds.top_left()
             },
         };
-        iter.update_active_edges();
+        if !bounds.is_empty() {
+            iter.update_active_edges();
+        }
 
         iter
     }
